@@ -502,7 +502,13 @@ func (nullSender) Send(ctx context.Context, t eventlogger.EventType, payload int
 func raceGated(h *raceH, p *prng, rounds int) {
 	for r := 0; r < rounds; r++ {
 		ch := &cgHarness{composed: map[int64]int{}, slow: time.Duration(p.intn(300)) * time.Microsecond}
-		f := &gated.Filter{Broker: nullSender{}, Expiration: time.Hour}
+		// the filter's clock takes its time (a yield and a few microseconds): whatever the filter does between
+		// looking a group up and storing an event in it is stretched, under its lock or not
+		f := &gated.Filter{Broker: nullSender{}, Expiration: time.Hour, NowFunc: func() time.Time {
+			runtime.Gosched()
+			time.Sleep(5 * time.Microsecond)
+			return time.Now()
+		}}
 		var uid int64
 		var accMu sync.Mutex
 		accepted := map[int64]bool{}
@@ -534,6 +540,7 @@ func raceGated(h *raceH, p *prng, rounds int) {
 		for u := range accepted {
 			if n := ch.composed[u]; n != 1 {
 				h.oracle("C11 under concurrent senders an accepted event was handed to composition %d times (exactly once required)", n)
+				h.oracle("C19 gated.Filter shared by %d senders: an accepted event reached composition %d times: the composed output is corrupted (an event lost or doubled)", nG, n)
 				break
 			}
 		}
